@@ -681,11 +681,18 @@ func pfFinalize(s *vsimcore.Sim, key string, K pfKeys, n int, what func() string
 			continue
 		}
 		s.Fault("finalized:" + strings.Fields(cdesc)[0])
+		var cgot map[string]*bitset.BitSet
 		guard(s, key+"/ValidateFinalizedProof", func() string {
 			return fmt.Sprintf("%s | corrupted: %s (part %d) | %s", strings.Join(desc, " "), cdesc, which, pfDescribeFin(f2))
 		}, func() {
-			K.scheme.ValidateFinalizedProof(f2, hashes)
+			cgot, _ = K.scheme.ValidateFinalizedProof(f2, hashes)
 		})
+		// a finalized proof in which one signature of an entry was damaged (the others of that entry are
+		// genuine) must not validate: no signer set may be reported on the strength of a proof that
+		// contains a signature that does not verify (simple scheme: every signature is checked on its own)
+		if kind == 4 && !K.bls && cgot != nil {
+			s.Violate(key+"/finalized-forged-signature-validates", "a finalized proof validates although a signature in it was damaged (part %d, %d signatures in that entry): %s | %s", which, len(*target), strings.Join(desc, " "), pfDescribeFin(f2))
+		}
 	}
 }
 
